@@ -2,8 +2,7 @@
   Props/C14.lean — Array = list of fixed-width items over one bit buffer: layout and the single-item operations.
 
   Standing hypotheses of the refinement theorems:
-    `hu : c.mult = 1`   the dtype's unit is one bit (every registered dtype except `bytes`; see `bytes_dtype_witness`)
-    `hL : 0 < c.w`      a non-degenerate item width
+    `hL : 0 < c.w`      a non-degenerate item width (`w = L * mult` bits: every multiplier, so `bytesN` too)
     `hwf : c.WF`        `|enc v| = w` and `dec (enc v) = v` for the values the dtype accepts
   so every statement holds for EVERY fixed-length dtype with these properties, not for a list of dtypes.
   (Slices: Props/C14_Slices.lean, operators and promotion: Props/C14_Ops.lean, whole histories: Props/C14_Sim.lean.)
@@ -76,7 +75,7 @@ theorem init_list_layout (c : Codec V) (hL : 0 < c.w) (hwf : c.WF)
         | none => simp at h; simp [← h]
         | some t => simp at h; simp [← h]
       rw [hd]
-      have hv' := view_of_blocks c hL bl (t.getD []) hbl (by rw [← w_eq_L c hu]; exact ht)
+      have hv' := view_of_blocks c hL bl (t.getD []) hbl ht
       exact ⟨by rw [hv'.1, hdec], hv'.2.1⟩
 
 /-- Construction fails iff some value does not fit. -/
@@ -130,7 +129,7 @@ theorem trailingBits_eq (c : Codec V) (hw : 0 < c.w) (d : Bits) : trailingBits c
     omega
 
 theorem len_eq (c : Codec V) (d : Bits) : len c d = (items c d).length := by
-  simp [len, items, chunks_len, w_eq_L c hu]
+  simp [len, items, chunks_len]
 
 /-- `tolist()`: the `range(0, len(data) - L + 1, L)` loop reads exactly the items. -/
 theorem tolist_eq_items (c : Codec V) (hL : 0 < c.w) (d : Bits) :
@@ -346,10 +345,8 @@ theorem append_refines (c : Codec V) (hL : 0 < c.w) (hwf : c.WF) (d : Bits) (v :
 theorem append_rejects (c : Codec V) (hL : 0 < c.w) (d : Bits) (v : V)
     (h : trailing c.w d ≠ [] ∨ fits c v = false) :
     (∃ e, (append c d v).res = .error e) ∧ (append c d v).data = d := by
-  have hw := w_eq_L c hu
   rcases h with h | h
   · have hm : d.length % c.w ≠ 0 := by
-      rw [hw] at h
       exact fun h0 => h ((trailing_nil_iff c.w d).mpr h0)
     unfold append
     rw [if_pos hm]
@@ -384,9 +381,7 @@ theorem extendIter_refines (c : Codec V) (hL : 0 < c.w) (hwf : c.WF) (d : Bits) 
 theorem extendIter_trailing_rejects (c : Codec V) (hL : 0 < c.w) (d : Bits) (vals : List V)
     (ht : trailing c.w d ≠ []) :
     (extendIter c d vals).res = .error .value ∧ (extendIter c d vals).data = d := by
-  have hw := w_eq_L c hu
   have hm : d.length % c.w ≠ 0 := by
-    rw [hw] at ht
     exact fun h0 => ht ((trailing_nil_iff c.w d).mpr h0)
   unfold extendIter
   rw [if_pos hm]
@@ -422,11 +417,9 @@ theorem extendArr_refines (c c2 : Codec V) (hL : 0 < c.w) (d d2 : Bits)
 theorem extendArr_rejects (c c2 : Codec V) (hL : 0 < c.w) (d d2 : Bits)
     (h : trailing c.w d ≠ [] ∨ c.name ≠ c2.name ∨ c.L ≠ c2.L) :
     (∃ e, (extendArr c d c2 d2).res = .error e) ∧ (extendArr c d c2 d2).data = d := by
-  have hw := w_eq_L c hu
   unfold extendArr
   rcases h with h | h
   · have hm : d.length % c.w ≠ 0 := by
-      rw [hw] at h
       exact fun h0 => h ((trailing_nil_iff c.w d).mpr h0)
     rw [if_pos hm]
     exact ⟨⟨_, rfl⟩, rfl⟩
@@ -434,29 +427,21 @@ theorem extendArr_rejects (c c2 : Codec V) (hL : 0 < c.w) (d d2 : Bits)
     · exact ⟨⟨_, rfl⟩, rfl⟩
     · exact ⟨⟨_, rfl⟩, rfl⟩
 
-/-- `extend(array.array)`: when the dtype of the typecode matches ours and its standard size is the array's native
-    item size (outside the region `extend_array_itemsize`), the array's items — `raw` read at our width — are appended. -/
-theorem extendBuf_refines_partial (c : Codec V) (hL : 0 < c.w) (d raw : Bits) (name2 : String) (L2 native : Nat)
-    (hreg : extend_array_itemsize (some (name2, L2)) native = false)
-    (hsame : c.name = name2 ∧ c.L = L2) (ht : trailing c.w d = []) :
-    native = c.w ∧
-    (extendBuf c d (some (name2, L2)) native raw).view c = .ok ((), items c d ++ items c raw) := by
-  have hw := w_eq_L c hu
-  have hnat : native = c.w := by
-    unfold extend_array_itemsize at hreg
-    have : L2 = native := by simpa using hreg
-    rw [hw, hsame.2, this]
-  refine ⟨hnat, ?_⟩
+/-- `extend(array.array)`: accepted exactly when the kind given by the typecode and the array's own item size are
+    our dtype's name and length; then the array's bytes — `raw`, read at our width — are appended as items. -/
+theorem extendBuf_refines (c : Codec V) (hL : 0 < c.w) (d raw : Bits) (name2 : String) (native : Nat)
+    (hsame : c.name = name2 ∧ c.L = native) (ht : trailing c.w d = []) :
+    (extendBuf c d (some name2) native raw).view c = .ok ((), items c d ++ items c raw) := by
   obtain ⟨bs, t, hbs, ht', rfl, hch, htr, hlen, hit⟩ := blocks_view c hL d
   rw [htr] at ht
   subst ht
   obtain ⟨bs2, t2, hbs2, ht2, rfl, hch2, htr2, hlen2, hit2⟩ := blocks_view c hL raw
   have hm : (bs.flatten ++ ([] : Bits)).length % c.w = 0 := by
     rw [List.append_nil, blocks_flatten_length c.w bs hbs]; exact Nat.mul_mod_left _ _
-  have hs : extendBuf c (bs.flatten ++ []) (some (name2, L2)) native (bs2.flatten ++ t2) = ⟨(bs ++ bs2).flatten ++ t2, .ok ()⟩ := by
+  have hs : extendBuf c (bs.flatten ++ []) (some name2) native (bs2.flatten ++ t2) = ⟨(bs ++ bs2).flatten ++ t2, .ok ()⟩ := by
     unfold extendBuf
     rw [if_neg (not_not.mpr hm)]
-    have : ¬ (c.name ≠ name2 ∨ c.L ≠ L2) := by
+    have : ¬ (c.name ≠ name2 ∨ c.L ≠ native) := by
       intro h; rcases h with h | h
       · exact h hsame.1
       · exact h hsame.2
@@ -469,23 +454,25 @@ theorem extendBuf_refines_partial (c : Codec V) (hL : 0 < c.w) (d raw : Bits) (n
   unfold Step.view
   simp only [hv'.1, List.map_append]
 
-/-- Known finding `extend-array-itemsize`: `array.array('l', [1])` holds one 16-bit item on a platform where the standard
-    size of `'l'` is 8 bits (scaled down from 64 / 32): an `intle8` Array accepts it and reads two items `[1, 0]`. -/
-theorem extend_array_itemsize_witness :
-    let c := mkCodec .ile "intle" 8 1 .int true
-    let raw := [false, false, false, false, false, false, false, true, false, false, false, false, false, false, false, false]
-    extend_array_itemsize (some ("intle", 8)) 16 = true ∧
-    items c (extendBuf c [] (some ("intle", 8)) 16 raw).data = [.int 1, .int 0] ∧
-    (chunks 16 raw).length = 1 := by
-  decide
+theorem extendBuf_rejects (c : Codec V) (d raw : Bits) (kind : Option String) (native : Nat)
+    (h : ∀ name2, kind = some name2 → (c.name ≠ name2 ∨ c.L ≠ native)) :
+    (∃ e, (extendBuf c d kind native raw).res = .error e) ∧ (extendBuf c d kind native raw).data = d := by
+  unfold extendBuf
+  split
+  · exact ⟨⟨_, rfl⟩, rfl⟩
+  · cases kind with
+    | none => exact ⟨⟨_, rfl⟩, rfl⟩
+    | some name2 =>
+      simp only
+      rw [if_pos (h name2 rfl)]
+      exact ⟨⟨_, rfl⟩, rfl⟩
 
 /-! ### insert, pop -/
 
-/-- `insert(i, x)` = `list.insert(i, x)` with the trailing bits untouched — outside the region `insert_negative`
-    (negative index with trailing bits present, or below `-len`).  Full statement (no `hreg`) fails on the pinned
-    tree: see `insert_negative_witness`. -/
-theorem insert_refines_partial (c : Codec V) (hL : 0 < c.w) (hwf : c.WF) (d : Bits) (i : Int) (v : V)
-    (hv : fits c v = true) (hreg : insert_negative c d i = false) :
+/-- `insert(i, x)` = `list.insert(i, x)` (negative positions from the end of the *items*, clamped to `[0, len]`)
+    with the trailing bits untouched. -/
+theorem insert_refines (c : Codec V) (hL : 0 < c.w) (hwf : c.WF) (d : Bits) (i : Int) (v : V)
+    (hv : fits c v = true) :
     (insert c d i v).view c = .ok ((), PyL.insert (items c d) i v) ∧
     trailing c.w (insert c d i v).data = trailing c.w d := by
   obtain ⟨bs, t, hbs, ht, rfl, hch, htr, hlen, hit⟩ := blocks_view c hL d
@@ -494,43 +481,26 @@ theorem insert_refines_partial (c : Codec V) (hL : 0 < c.w) (hwf : c.WF) (d : Bi
   have hdl : (bs.flatten ++ t).length = bs.length * c.w + t.length := by
     rw [List.length_append, blocks_flatten_length c.w bs hbs]
   -- the item position the code computes
-  have key : ∃ k : Nat, k ≤ bs.length ∧
+  obtain ⟨k, hk, hkj, hpos⟩ : ∃ k : Nat, k ≤ bs.length ∧
       (k : Int) = (if i < 0 then max (i + (bs.length : Int)) 0 else min i (bs.length : Int)) ∧
-      (if min i ((len c (bs.flatten ++ t) : Nat) : Int) * (c.w : Int) < 0
-        then min i ((len c (bs.flatten ++ t) : Nat) : Int) * (c.w : Int) + ((bs.flatten ++ t).length : Int)
-        else min i ((len c (bs.flatten ++ t) : Nat) : Int) * (c.w : Int)) = ((k * c.w : Nat) : Int) := by
+      min (if i < 0 then max (i + ((len c (bs.flatten ++ t) : Nat) : Int)) 0 else i) ((len c (bs.flatten ++ t) : Nat) : Int)
+        * (c.w : Int) = ((k * c.w : Nat) : Int) := by
     rw [hlen]
-    unfold insert_negative at hreg
-    rw [hlen] at hreg
     by_cases hi : i < 0
-    · have h1 : (bs.flatten ++ t).length % c.w = 0 ∧ -(bs.length : Int) ≤ i := by
-        simp only [hi, decide_true, Bool.true_and, Bool.or_eq_false_iff, bne_eq_false_iff_eq,
-          decide_eq_false_iff_not, not_lt] at hreg
-        exact hreg
-      have ht0 : t.length = 0 := by
-        have := h1.1
-        rw [hdl, Nat.mul_comm, Nat.mul_add_mod, Nat.mod_eq_of_lt ht] at this
-        exact this
-      refine ⟨(i + (bs.length : Int)).toNat, by omega, ?_, ?_⟩
+    · refine ⟨(max (i + (bs.length : Int)) 0).toNat, by omega, ?_, ?_⟩
       · simp only [hi, if_true]; omega
-      · have hm : min i (bs.length : Int) = i := by omega
+      · simp only [hi, if_true]
+        have hm : min (max (i + (bs.length : Int)) 0) (bs.length : Int) = max (i + (bs.length : Int)) 0 := by omega
         rw [hm]
-        have hneg : i * (c.w : Int) < 0 := Int.mul_neg_of_neg_of_pos hi (by omega)
-        rw [if_pos hneg, hdl, ht0]
-        have : ((i + (bs.length : Int)).toNat : Int) = i + bs.length := by omega
+        have : ((max (i + (bs.length : Int)) 0).toNat : Int) = max (i + (bs.length : Int)) 0 := by omega
         push_cast
         rw [this]
-        ring
     · refine ⟨(min i (bs.length : Int)).toNat, by omega, ?_, ?_⟩
       · simp only [hi, if_false]; omega
-      · have hnn : ¬ (min i (bs.length : Int) * (c.w : Int) < 0) := by
-          have : 0 ≤ min i (bs.length : Int) * (c.w : Int) := Int.mul_nonneg (by omega) (by omega)
-          omega
-        rw [if_neg hnn]
+      · simp only [hi, if_false]
         have : ((min i (bs.length : Int)).toNat : Int) = min i (bs.length : Int) := by omega
         push_cast
         rw [this]
-  obtain ⟨k, hk, hkj, hpos⟩ := key
   have hkl : k * c.w ≤ (bs.flatten ++ t).length := by
     rw [hdl]
     have := Nat.mul_le_mul_right c.w hk
@@ -538,7 +508,9 @@ theorem insert_refines_partial (c : Codec V) (hL : 0 < c.w) (hwf : c.WF) (d : Bi
   have hs : insert c (bs.flatten ++ t) i v = ⟨(bs.take k ++ b :: bs.drop k).flatten ++ t, .ok ()⟩ := by
     unfold insert
     simp only [hce]
-    rw [bInsert_of _ b _ (k * c.w) (by omega) hkl hpos, insert_block c.w bs t b hbs k hk]
+    rw [hpos, bInsert_of _ b _ (k * c.w) (by omega) hkl (by
+      have : ¬ (((k * c.w : Nat) : Int) < 0) := by omega
+      rw [if_neg this]), insert_block c.w bs t b hbs k hk]
   have hbs' := insert_blocks_length c.w bs b hbs hbl k
   have hv' := view_of_blocks c hL _ t hbs' ht
   rw [hs, hit, htr]
@@ -552,19 +524,6 @@ theorem insert_rejects (c : Codec V) (d : Bits) (i : Int) (v : V) (hv : fits c v
   obtain ⟨e, he⟩ := (fits_false_iff c v).mp hv
   unfold insert
   simp [createElement_err c v e he]
-
-/-- Known finding `insert-negative`: on `Array('uint2', [1, 0], trailing_bits='0b1')`, `insert(-1, 3)` lands inside
-    item 1 (list model: `[1, 3, 0]`; code: `[1, 1, 2]`), and `Array('uint2', [1]).insert(-2, 3)` raises where the list
-    model inserts at position 0. -/
-theorem insert_negative_witness :
-    let c := mkCodec .u "uint" 2 1 .int false
-    insert_negative c [false, true, false, false, true] (-1) = true ∧
-    items c (insert c [false, true, false, false, true] (-1) (.int 3)).data = [.int 1, .int 1, .int 2] ∧
-    PyL.insert (items c [false, true, false, false, true]) (-1) (.int 3) = [.int 1, .int 3, .int 0] ∧
-    insert_negative c [false, true] (-2) = true ∧
-    (insert c [false, true] (-2) (.int 3)).res = .error .value ∧
-    PyL.insert (items c [false, true]) (-2) (.int 3) = [.int 3, .int 1] := by
-  decide
 
 theorem pop_refines (c : Codec V) (hL : 0 < c.w) (d : Bits) (i : Int) :
     (pop c d i).view c = PyL.pop (items c d) i := by
@@ -634,13 +593,19 @@ theorem pop_error_unchanged (c : Codec V) (d : Bits) (i : Int) (e : Err)
 
 /-! ### count, equals, copy, dtype change -/
 
-/-- `count(value)` = `list.count(value)` for a value `math.isnan` accepts and that is not NaN — outside the region
-    `count_nonnumeric`. -/
-theorem count_refines_partial (c : Codec V) (vo : ValOps V) (hL : 0 < c.w) (d : Bits) (value : V)
-    (hnan : vo.isnan value = .ok false) :
+/-- `count(value)` = `list.count(value)` for every value that is not NaN — numbers, and the str / bytes / Bits
+    values `math.isnan` cannot take. -/
+theorem count_refines (c : Codec V) (vo : ValOps V) (hL : 0 < c.w) (d : Bits) (value : V)
+    (hnan : vo.isnan value ≠ .ok true) :
     count c vo d value = .ok ((items c d).countP fun i => vo.eq i value) := by
   unfold count
-  simp only [hnan, iter_eq_items c hL d]
+  simp only [iter_eq_items c hL d]
+  cases h : vo.isnan value with
+  | error e => rfl
+  | ok b =>
+    cases b with
+    | false => rfl
+    | true => exact absurd h hnan
 
 /-- `count(nan)` counts the NaN items (documented). -/
 theorem count_nan (c : Codec V) (vo : ValOps V) (hL : 0 < c.w) (d : Bits) (value : V)
@@ -649,15 +614,6 @@ theorem count_nan (c : Codec V) (vo : ValOps V) (hL : 0 < c.w) (d : Bits) (value
   unfold count
   simp only [hnan, iter_eq_items c hL d]
   rfl
-
-/-- Known finding `count-nonnumeric`: `Array('hex4', ['e']).count('e')` raises TypeError, `['e'].count('e')` is 1. -/
-theorem count_nonnumeric_witness :
-    let c := mkCodec .raw "hex" 4 1 .other false
-    let v := Val.raw [true, true, true, false]
-    count_nonnumeric (valOps c) v = true ∧
-    count c (valOps c) [true, true, true, false] v = .error .type ∧
-    (items c [true, true, true, false]).countP (fun i => (valOps c).eq i v) = 1 := by
-  decide
 
 /-- `equals`: same dtype and same data; for a canonical codec that is "same items and same trailing bits". -/
 theorem equals_iff (c c2 : Codec V) (d d2 : Bits) :
@@ -700,35 +656,6 @@ theorem dtype_change_keeps_data (a : Arr V) (c2 : Codec V) (hw : 0 < c2.w) :
   refine ⟨rfl, layout c2.w a.d, rfl, ?_⟩
   cases a; rfl
 
-/-! ### the `bytes` dtypes: `dtype.length` counts bytes, the code uses it as a bit count -/
-
-/-- Known finding `bytes-length-vs-bitlength`: with `mult = 8` no element can be created
-    (`Array('bytes3', [b'ABC'])` raises although the value fits) and `len` counts `L`-bit units. -/
-theorem bytes_dtype_witness :
-    let c := mkCodec .raw "bytes" 1 8 .other false
-    let v := Val.raw [false, true, false, false, false, false, false, true]
-    bytes_dtype c = true ∧ fits c v = true ∧
-    init c (.list [v]) none = .error .value ∧
-    len c [false, true, false, false, false, false, false, true] = 8 ∧
-    (items c [false, true, false, false, false, false, false, true]).length = 1 := by
-  decide
-
-/-- In that region every value that fits is rejected by `_create_element` (a non-empty item is never `L` bits long
-    when `L < L * mult`). -/
-theorem bytes_dtype_rejects_all (c : Codec V) (hwf : c.WF) (hL : 0 < c.w) (hm : 1 < c.mult) (v : V) :
-    ∃ e, createElement c v = .error e := by
-  unfold createElement
-  cases h : c.enc v with
-  | error e => exact ⟨e, rfl⟩
-  | ok b =>
-    have hl := hwf.len_enc v b h
-    have : b.length ≠ c.w := by
-      rw [hl, Codec.w]
-      have : c.w * 1 < c.w * c.mult := Nat.mul_lt_mul_of_pos_left hm hL
-      omega
-    simp only [this, ne_eq, not_false_eq_true, if_true]
-    exact ⟨_, rfl⟩
-
 /-! ### non-vacuity -/
 example : (mkCodec .u "uint" 3 1 .int false).WF := mkCodec_u_WF "uint" 3 .int false
 example : (mkCodec .i "int" 4 1 .int true).WF := mkCodec_i4_WF
@@ -737,5 +664,14 @@ example : trailing 3 [true, false, true, false, true, true, true] = [true] := by
 example : (setItem (mkCodec .i "int" 4 1 .int true) [true, false, true, false, true, true, true, true, false] (-1) (.int (-8))).data
     = [true, false, true, false, true, false, false, false, false] := by decide
 example : fits (mkCodec .u "uint" 3 1 .int false) (.int 8) = false ∧ fits (mkCodec .u "uint" 3 1 .int false) (.int 7) = true := by decide
+-- a `bytes1` Array (unit of 8 bits): `Array('bytes1', [b'A'])`, then `insert(-1, b'B')` with a trailing bit
+example :
+    let c := mkCodec .raw "bytes" 1 8 .other false
+    let a := Val.raw [false, true, false, false, false, false, false, true]
+    let b := Val.raw [false, true, false, false, false, false, true, false]
+    c.w = 8 ∧ init c (.list [a]) (some [true]) = .ok [false, true, false, false, false, false, false, true, true] ∧
+    items c (insert c [false, true, false, false, false, false, false, true, true] (-1) b).data = [b, a] ∧
+    trailing c.w (insert c [false, true, false, false, false, false, false, true, true] (-1) b).data = [true] := by
+  decide
 
 end BM.C14
